@@ -1,18 +1,13 @@
 # Per-property harness configuration for ./check (see DESIGN.md section 0.2).
-E1 = "E1 seqx: explicit-state BFS / bounded-exhaustive enumeration over the real component"
+# Every mc/cNN/prop.py defines PROP = dict(...); they are merged here under their id.
+import glob, os
 
-PROPS = {
-    "C03": dict(
-        pkg=".", test="TestVerifC03", files=["mc/c03/*.go"], libs=["explore", "canon"],
-        level="model_checking", shards=1,
-        level_text="Explicit-state model checking of the real frameSorter, ReceiveStream (+real flow controllers) and crypto streams against a byte-array reference model: the frameSorter and crypto-stream state spaces are explored to closure, the ReceiveStream to a depth bound; every transition is executed on the real code, so there is no model/code gap. Right level because the property quantifies over all segmentations/orders of a byte string, which is a finite space on a small lattice chosen around the 128-byte copy threshold.",
-        level_note="Trusted: the reference byte-array model in mc/c03, the reflective canonicaliser (nothing that is data is dropped), cell-aligned lattice (K<=8 cells of 1/50/128 bytes); blocking behaviour of Read is only exercised in states where the model says it cannot block.",
-        technique="explicit-state BFS over the real implementation with reference-model oracle",
-        deadline=dict(quick=90, thorough=1000),
-        rule="explicit-state BFS over the real frameSorter / ReceiveStream / crypto streams; successor = fresh instance + replay of the shortest path + one op",
-        assumptions=["the goroutine running a Read that the model says cannot block is given 30 s of wall clock before it is declared blocked",
-                     "lattice offsets only (cell-aligned segments); sizes beyond the lattice are not explored"],
-    ),
-}
+_HERE = os.path.dirname(os.path.abspath(__file__))
+PROPS = {}
+for _f in sorted(glob.glob(os.path.join(_HERE, "c[0-9][0-9]", "prop.py"))):
+    _ns = {}
+    exec(compile(open(_f).read(), _f, "exec"), _ns)
+    PROPS["C" + os.path.basename(os.path.dirname(_f))[1:]] = _ns["PROP"]
 
+# one-line reasons for properties that have no check yet
 NOT_YET = {}
